@@ -18,7 +18,11 @@ func ContextAfterFunc(ctx context.Context, f func()) (stop func() bool) {
 	stopped, ran := false, false
 	hb := new(byte) // registration happens before the function runs
 	RaceReleaseMerge(unsafePointer(hb))
-	S.spawn("context.AfterFunc", "repo", func() {
+	// (the waiting task is the simulator's: in the real runtime no goroutine exists
+	// until the context is done, so the leak oracles must not see one; it becomes a
+	// task of the code under test when f starts)
+	var me *Task
+	me = S.spawn("context.AfterFunc", "sim", func() {
 		RaceAcquire(unsafePointer(hb))
 		t := Pre()
 		select {
@@ -26,6 +30,7 @@ func ContextAfterFunc(ctx context.Context, f func()) (stop func() bool) {
 			Post(t)
 			if !stopped {
 				ran = true
+				me.Kind = "repo"
 				f()
 			}
 		case <-stopCh:
